@@ -9,4 +9,7 @@ func init() {
 	reg.Register("fw-cells", func(a reg.Args) (interface{}, error) {
 		return fw.RunCells(a.In, a.Out, a.Seed, a.Sample, a.Reps, a.Workers, a.Base, a.NoShuffle, a.Tier)
 	})
+	reg.Register("fw-burst", func(a reg.Args) (interface{}, error) {
+		return fw.RunBurst(a.In, a.Out, a.Seed, a.N, a.Workers, a.Base)
+	})
 }
